@@ -739,25 +739,28 @@ def work(args):
 
 # --------------------------------------------------------------------------- entry points
 
-def _witnesses(ctx):
-    """replay the witness schedule of every known finding (and report which still reproduce)"""
+def work_witness(args):
+    """replay the witness schedule of one known finding (runs in a worker process, so that the
+    parent never owns scheduler threads when it forks)"""
     import collections
-    base = ctx.mkdtemp()
-    drv = Driver("c18") if getattr(ctx, "driver_ok", True) else None
-    try:
-        for e in ctx.findings:
-            w = e.get("witness") or {}
-            if e.get("status") != "known" or "scenario" not in w:
-                continue
-            out = dict(n=0, hist=collections.Counter(), fails=[], mismatches=[])
-            ex = execute(w["scenario"], w["choices"], base)
-            check_execution(w["scenario"], ex, w["choices"], drv, out)
-            reproduced = any(f[0] == e["matcher"]["key"] for f in out["fails"])
-            ctx.extra.setdefault("witness_replay", {})[e["id"]] = "reproduced" if reproduced else "NOT reproduced"
-            _merge(ctx, out)
-    finally:
-        if drv:
-            drv.close()
+    fid, key, scn, choices = args
+    out = dict(name="witness:" + fid, n=0, hist=collections.Counter(), fails=[], mismatches=[], truncated=False,
+               infra=None, witness=(fid, None))
+    for attempt in (0, 1, 2):
+        try:
+            ex = execute(scn, choices, _W["base"])
+            check_execution(scn, ex, choices, _W.get("drv"), out)
+            out["witness"] = (fid, any(f[0] == key for f in out["fails"]))
+            break
+        except Exception as e:
+            if attempt == 2:
+                out["infra"] = f"witness {fid}: {type(e).__name__}: {e}"[:1500]
+    out["hist"] = dict(out["hist"])
+    return out
+
+
+def _dispatch(job):
+    return work_witness(job[1:]) if job[0] == "witness" else work(job[1:])
 
 
 def _merge(ctx, out):
@@ -792,35 +795,39 @@ def run(ctx):
         "flight and no unload while a write of it is in flight; lin_full (all schedules) is refuted by four decide-checked "
         "schedules (update during load, read between truncate and write, unload during load, unload during write)",
     ]
-    import logging
-    logging.disable(logging.WARNING)
-    _witnesses(ctx)
     jobs = []
+    for e in ctx.findings:
+        w = e.get("witness") or {}
+        if e.get("status") == "known" and "scenario" in w:
+            jobs.append(("witness", e["id"], e["matcher"]["key"], w["scenario"], w["choices"]))
     if quick:
         for name, scn in core_scenarios():
-            jobs.append((name, scn, 2, 800))
+            jobs.append(("explore", name, scn, 2, 800))
         for i in range(28):
-            jobs.append((f"rnd{i}", random_scenario(ctx.rng), 2, 300))
+            jobs.append(("explore", f"rnd{i}", random_scenario(ctx.rng), 2, 300))
         for name, scn in df_scenarios():
-            jobs.append((name, scn, 1, 60))
-        jobs.sort(key=lambda j: -j[3])
+            jobs.append(("explore", name, scn, 1, 60))
+        jobs.sort(key=lambda j: -(j[4] if j[0] == "explore" else 10 ** 9))
     else:
         for name, scn in core_scenarios():
-            jobs.append((name, scn, 3, 30000))
+            jobs.append(("explore", name, scn, 3, 30000))
         for name, scn in pair_scenarios():
-            jobs.append((name, scn, 3, 6000))
+            jobs.append(("explore", name, scn, 3, 6000))
         for i in range(400):
-            jobs.append((f"rnd{i}", random_scenario(ctx.rng), 2, 2000))
+            jobs.append(("explore", f"rnd{i}", random_scenario(ctx.rng), 2, 2000))
         for name, scn in df_scenarios():
-            jobs.append((name, scn, 2, 1500))
-        jobs.sort(key=lambda j: -j[3])           # big jobs first
+            jobs.append(("explore", name, scn, 2, 1500))
+        jobs.sort(key=lambda j: -(j[4] if j[0] == "explore" else 10 ** 9))     # witnesses, then big jobs first
     base = ctx.mkdtemp()
     nproc = max(2, min(8, (os.cpu_count() or 4) // 2))
     ctxm = mp.get_context("fork")
     truncated = 0
     with ctxm.Pool(nproc, initializer=_winit, initargs=(base,)) as pool:
-        for out in pool.imap_unordered(work, jobs, chunksize=1):
+        for out in pool.imap_unordered(_dispatch, jobs, chunksize=1):
             _merge(ctx, out)
+            if out.get("witness"):
+                ctx.extra.setdefault("witness_replay", {})[out["witness"][0]] = (
+                    "reproduced" if out["witness"][1] else "NOT reproduced")
             truncated += 1 if out["truncated"] else 0
             if out.get("retried"):
                 ctx.extra.setdefault("worker_retries", []).append(out["retried"][-400:])
